@@ -27,7 +27,8 @@
    (Proofs/C05Exact*.lean: `quadRoot_mem`, `quadRoot_exact`, `regionRejects_sound`, `regionExact_sound`, `spkOk_sound`).
    LAYER SEPARATION: `layer_separation_lower_layouts` (no hypothesis: `p.z > 3e-11` ⇒ every lower-layer loudspeaker gets
    exactly 0), `layer_separation_upper_layouts_partial` (`p.z < −3e-11` ⇒ upper-layer loudspeakers get exactly 0, under the
-   hypothesis that the QuadRegions with an upper-layer corner reject such a direction; `layer_separation_upper_noquad`
+   hypothesis `Cover.QuadsZeroFar`: the QuadRegions with an upper-layer corner answer `None` or give those corners the
+   weight exactly 0 for such a direction; `layer_separation_upper_noquad`
    without hypothesis where there is no such quad: 3+7+0).
    Still NOT proved: totality / exactness on real (non-nominal) loudspeaker positions, that one side never gets less
    power than the other, the QuadRegion step of the upper-layer clause, that the composed panner is mirror-symmetric, and
@@ -773,10 +774,12 @@ theorem layer_tables_ok : layerTablesOk Earverif.Gen.C05Cover.scaleExp Earverif.
 open Cover in
 /-- **C05 "sources above the horizontal plane never excite lower-layer loudspeakers", ten nominal layouts (model level,
     over ℝ), no hypothesis left.**  For every direction `p` (any length) with `p.z > 3e-11` the modelled
-    `configure(layout).handle` gives every lower-layer loudspeaker the gain EXACTLY 0. -/
+    `configure(layout).handle` answers one gain per loudspeaker (`out.length = l.nReal`, so `out.getD k 0` below IS the gain
+    of loudspeaker `k`, not the default of an out-of-range index) and gives every lower-layer loudspeaker the gain
+    EXACTLY 0. -/
 theorem layer_separation_lower_layouts (l : RawLayout) (hl : l ∈ Earverif.Gen.C05.layouts) (p : Vec3 ℝ)
     (hp : layerDelta < p.2.2) (out : List ℝ) (hout : Earverif.GainCalc.pspHandle l p = some out) (k : Nat)
-    (hk : k ∈ layerRows l false) : out.getD k 0 = 0 := by
+    (hk : k ∈ layerRows l false) : out.length = l.nReal ∧ out.getD k 0 = 0 := by
   have hwf : l.wellFormed = true := by
     have := tables_wellFormed
     rw [List.all_eq_true] at this
@@ -792,16 +795,21 @@ theorem layer_separation_lower_layouts (l : RawLayout) (hl : l ∈ Earverif.Gen.
   exact layer_separation_of_check _ l hwf hst _ false hQ hq p hp out hout k hk hkr
 
 open Cover in
-/-- **"sources below the horizontal plane never excite upper-layer loudspeakers", PARTIAL.**  Missing: `QuadsRejectFar` —
-    that every QuadRegion with an upper-layer corner (mid/upper quads of 2+5+0, 4+5+0, 4+5+1, 4+9+0, 9+10+3, 4+7+0) answers
-    `None` for `p.z < −3e-11`: a quad finds pan values for the antipodal cone as well and rejects it only by its final
-    sign test, which is a statement about the roots of its two quadratics at a general direction.  Proved: every Triplet
-    and the top VirtualNgon with an upper-layer vertex rejects such a direction, regions without a channel feeding an
-    upper-layer loudspeaker leave it at exactly 0 through scatter, downmix and renormalisation. -/
+/-- **"sources below the horizontal plane never excite upper-layer loudspeakers", PARTIAL.**  Missing: `QuadsZeroFar` —
+    that every QuadRegion with an upper-layer corner (mid/upper quads of 2+5+0, 4+5+0, 4+5+1, 4+9+0, 9+10+3, 4+7+0), asked
+    for a direction with `p.z < −3e-11`, answers `None` OR gives its upper-layer corners the weight exactly 0
+    (`Cover.QuadZeroAt`).  Both cases occur in the real code: a quad finds pan values for the antipodal cone as well and
+    rejects it only by its final sign test; and for `p.z` between about −1e-10 and −3e-11 the vertical pan root is still
+    inside `pan_axis`' window (−1e-10, 1+1e-10), is clipped to 0, and the quad ACCEPTS with weight exactly 0 on its upper
+    corners (so "the quads reject below the plane" is false; instance: the `example` after this theorem).  The hypothesis
+    is a statement about the roots of the two quadratics at a general direction (including `np.roots`' nearly-real
+    complex pairs) and is not proved.  Proved: every Triplet and the top VirtualNgon with an upper-layer vertex rejects
+    such a direction, regions without a channel feeding an upper-layer loudspeaker, and quads under the hypothesis, leave
+    it at exactly 0 through scatter, downmix and renormalisation; the answer has one entry per loudspeaker. -/
 theorem layer_separation_upper_layouts_partial (l : RawLayout) (hl : l ∈ Earverif.Gen.C05.layouts)
-    (hq : QuadsRejectFar l (layerRows l true) true) (p : Vec3 ℝ)
+    (hq : QuadsZeroFar l (layerRows l true) true) (p : Vec3 ℝ)
     (hp : p.2.2 < -layerDelta) (out : List ℝ) (hout : Earverif.GainCalc.pspHandle l p = some out) (k : Nat)
-    (hk : k ∈ layerRows l true) : out.getD k 0 = 0 := by
+    (hk : k ∈ layerRows l true) : out.length = l.nReal ∧ out.getD k 0 = 0 := by
   have hwf : l.wellFormed = true := by
     have := tables_wellFormed
     rw [List.all_eq_true] at this
@@ -821,8 +829,67 @@ open Cover in
 theorem layer_separation_upper_noquad (l : RawLayout) (hl : l ∈ Earverif.Gen.C05.layouts)
     (hnq : layerOk Earverif.Gen.C05Cover.scaleExp l (layerRows l true) true = true) (p : Vec3 ℝ)
     (hp : p.2.2 < -layerDelta) (out : List ℝ) (hout : Earverif.GainCalc.pspHandle l p = some out) (k : Nat)
-    (hk : k ∈ layerRows l true) : out.getD k 0 = 0 :=
+    (hk : k ∈ layerRows l true) : out.length = l.nReal ∧ out.getD k 0 = 0 :=
   layer_separation_upper_layouts_partial l hl (layerOk_noquad _ l _ true hnq).2 p hp out hout k hk
+
+open Cover in
+/-- **an instance of the hypothesis `QuadsZeroFar`** (and the reason why the earlier hypothesis "the quad answers `None`" was
+    false): 4+5+0 (table `L3`), the rear mid/upper QuadRegion `L3_r6` (channels U-110, M+110, M-110, U+110; vertex order
+    M+110, U+110, U-110, M-110, so `pan_x` is the vertical pan value), direction `(0, −2³⁴, −1)` (straight back, 5.8e-11 below
+    the plane after normalisation; the real `configure("4+5+0").handle` ACCEPTS it in this region with gains
+    `[0, .7071, .7071, 0]`).  The kernel decides on the scaled integer corners that the vertical quadratic has no root in
+    `(0, 1 + 1e-10)` and no nearly-real complex pair (`quadAxisOk`), hence every pan value `quadRoot` can return is the clip
+    of a root in `(−1e-10, 0]`, i.e. exactly 0, and the two upper corners get the weights `0·(1−y)`, `0·y`. -/
+example : FarSide true (p3 ((0, 0), (-17179869184, 0), (-1, 0)) : Vec3 ℝ) ∧
+    QuadZeroAt Earverif.Gen.C05.L3 (layerRows Earverif.Gen.C05.L3 true) Earverif.Gen.C05.L3_r6
+      (p3 ((0, 0), (-17179869184, 0), (-1, 0))) := by
+  constructor
+  · simp only [FarSide, if_true, layerDelta, p3, OfF2.ofF2, f2Rat]
+    norm_num
+  · have hrows : layerRows Earverif.Gen.C05.L3 true = [5, 6, 7, 8] := by decide +kernel
+    rw [hrows]
+    have hax := quadAxisOk_sound Earverif.Gen.C05Cover.scaleExp Earverif.Gen.C05.L3_r6 ((0, 0), (-17179869184, 0), (-1, 0)) false
+      (-1, bigEI) (0, 1) (by decide +kernel)
+    simp only [Bool.false_eq_true, if_false, Int.cast_zero, Int.cast_one, div_one] at hax
+    intro gv hgv j c hj hf
+    set P := (⟨List.map p3 Earverif.Gen.C05.L3_r6.pos, Earverif.Gen.C05.L3_r6.order⟩ : QuadRegion ℝ).polys
+      (p3 ((0, 0), (-17179869184, 0), (-1, 0))) with hP
+    cases hx : Earverif.GainCalc.quadRoot P.1 with
+    | none => rw [hx] at hgv; simp [QuadRegion.handle] at hgv
+    | some x =>
+      have hx0 : x = 0 := hax.eq_zero x hx
+      subst hx0
+      rw [hx] at hgv
+      cases hy : Earverif.GainCalc.quadRoot P.2 with
+      | none => rw [hy] at hgv; simp [QuadRegion.handle] at hgv
+      | some y =>
+        rw [hy] at hgv
+        simp only [QuadRegion.handle] at hgv
+        split at hgv
+        · exact absurd hgv (by simp)
+        · simp only [Option.some.injEq] at hgv
+          subst hgv
+          apply getD_normalise
+          have hord : Earverif.Gen.C05.L3_r6.order = [1, 3, 0, 2] := rfl
+          have hch : Earverif.Gen.C05.L3_r6.ch = [8, 3, 4, 7] := rfl
+          rw [hch] at hj
+          simp only [hord]
+          match j, hj with
+          | 0, _ => simp [scatter, zeros, QuadRegion.weights, zero_real, one_real]
+          | 1, hj =>
+            simp only [List.getElem?_cons_succ, List.getElem?_cons_zero, Option.some.injEq] at hj
+            subst hj
+            exact absurd hf (by decide +kernel)
+          | 2, hj =>
+            simp only [List.getElem?_cons_succ, List.getElem?_cons_zero, Option.some.injEq] at hj
+            subst hj
+            exact absurd hf (by decide +kernel)
+          | 3, _ => simp [scatter, zeros, QuadRegion.weights, zero_real, one_real]
+          | j + 4, hj => simp at hj
+
+open Cover in
+/-- the loudspeaker counts of the ten tables (`nSpeakers`: the real channels without LFE; 2 for the stereo wrapper) -/
+example : Earverif.Gen.C05.layouts.map nSpeakers = [2, 5, 7, 9, 10, 10, 13, 22, 7, 11] := by decide +kernel
 
 open Cover in
 /-- non-vacuity: 4+5+1 (table `L4`) has the lower-layer loudspeaker B+000 = channel 9 and four upper-layer ones;
